@@ -216,6 +216,9 @@ pub struct Op {
     pub pop: Pop,
     /// judge / populate read their file arguments to EOF before deciding
     pub nosy: bool,
+    /// set/put: instead of a fresh file, the source is a new hard link to this existing file
+    #[serde(default)]
+    pub link_from: Option<String>,
 }
 
 #[derive(Clone, Debug, PartialEq, Eq, Serialize, Deserialize)]
@@ -354,7 +357,16 @@ pub fn exec(root: &Path, h: &Handle, op: &Op) -> (Ret, Side) {
 fn exec_inner(root: &Path, h: &Handle, op: &Op, side: &Arc<Mutex<Side>>) -> Ret {
     let key = op.key.key();
     let data = op.val.encode();
-    let src = |tag: &str| make_source(&staging(root), tag, &data);
+    let src = |tag: &str| match &op.link_from {
+        Some(existing) => crate::shim::bypass(|| {
+            std::fs::create_dir_all(staging(root)).unwrap();
+            let p = staging(root).join(format!("src-link-{}", tag));
+            let _ = std::fs::remove_file(&p);
+            std::fs::hard_link(existing, &p).expect("hard link source");
+            p
+        }),
+        None => make_source(&staging(root), tag, &data),
+    };
     match (h, op.kind) {
         (Handle::Plain(c), OpKind::Get) => lookup_ret(c.get(&op.key.name)),
         (Handle::Plain(c), OpKind::Touch) => bool_ret(c.touch(&op.key.name)),
